@@ -70,7 +70,7 @@ def case_strategy(draw, big=False):
             l['attach'] = [{'all': True, 'tag': t} for t in draw(st.lists(st.sampled_from(tagsl), min_size=1, max_size=min(3, len(tagsl)), unique=True))]
         else:
             at = []
-            for j in draw(st.lists(st.integers(0, npl - 1), min_size=1, max_size=3, unique=True)):
+            for j in draw(st.lists(st.integers(0, npl - 1), min_size=1, max_size=4, unique=draw(st.integers(0, 3)) != 0)):     # (a pulse named twice carries the load twice)
                 p = topo.pulses[j]
                 if form == 'obj':
                     at.append({'k': topo.per_obj[p.owner].index(p), 'tag': objs[p.owner]['tag']})
